@@ -188,6 +188,17 @@ func jsonHistGen(g *Gen) {
 			}
 		}
 	}
+	// --- grid 5: the original is mutated between two encodes of it (a result cached under the
+	//     identity of the value would be stale); the result kept from before must not follow
+	for a := 3; a < len(pool); a++ {
+		for _, f := range "jm" {
+			for _, lv := range "eg" {
+				e0 := enc(byte(lv), byte(f), 0, 0)
+				j.emitHist([]string{pool[a]}, []string{e0, "mv 0 0", e0, "st 0", "d 0 1", "d 0 0", "mv 0 0", e0, "d 0 2"}, "grid original mutated between encodes")
+			}
+			j.emitHist([]string{pool[a]}, []string{enc('e', byte(f), 0, 0), enc('e', byte(f), 1, 0), "mv 1 0", enc('e', byte(f), 1, 0), enc('e', byte(f), 0, 0), "d 0 2", "d 1 3", "d 0 0", "d 1 1"}, "grid original mutated between encodes, two interpreters")
+		}
+	}
 	// --- random histories
 	n := 1500
 	if g.Thorough() {
@@ -238,7 +249,15 @@ func jsonHistGen(g *Gen) {
 			if g.Rng.Intn(2) == 0 {
 				steps = append(steps, fmt.Sprintf("st %d", g.Rng.Intn(nv)))
 			}
-			for _, s := range g.Rng.Perm(nv) {
+			nslots := nv
+			if g.Rng.Intn(4) == 0 {
+				// an original is mutated and encoded once more
+				i, p := g.Rng.Intn(nv), ip()
+				steps = append(steps, fmt.Sprintf("mv %d %d", p, i), enc(level(), f0, p, i))
+				nslots++
+				class = "random batch with a mutated original"
+			}
+			for _, s := range g.Rng.Perm(nslots) {
 				steps = append(steps, fmt.Sprintf("d %d %d", ip(), s))
 			}
 			steps = append(steps, fmt.Sprintf("st %d", g.Rng.Intn(nv)))
@@ -254,6 +273,9 @@ func jsonHistGen(g *Gen) {
 				}
 				if g.Rng.Intn(5) == 0 {
 					steps = append(steps, fmt.Sprintf("st %d", g.Rng.Intn(slots)))
+				}
+				if g.Rng.Intn(6) == 0 {
+					steps = append(steps, fmt.Sprintf("mv %d %d", ip(), g.Rng.Intn(nv)))
 				}
 			}
 			// every result is read at least once at the end, oldest last
